@@ -39,6 +39,7 @@ func main() {
 		fmt.Fprintln(os.Stderr, "unknown sub-command", sub)
 		os.Exit(2)
 	}
+	replayFile = *replay
 	f(*seed, *n, *tier, *out, *replay)
 }
 
@@ -51,8 +52,17 @@ type caseID struct {
 
 // caseSeq: the committed corpus of past witnesses (../corpus/<sub>.json, relative to the harness
 // directory) first, then the n fresh cases of this run.
+var replayFile string
+
 func caseSeq(sub string, seed uint64, n int) []caseID {
 	var ids []caseID
+	if replayFile != "" {
+		// a replay file is an issue written by an earlier run: it carries the seed and index of its case
+		var one caseID
+		if b, err := os.ReadFile(replayFile); err == nil && json.Unmarshal(b, &one) == nil {
+			return []caseID{one}
+		}
+	}
 	if b, err := os.ReadFile("../corpus/" + sub + ".json"); err == nil {
 		json.Unmarshal(b, &ids)
 	}
